@@ -895,6 +895,8 @@ func worldTFBad() *World {
 			// calls left open right behind '=' (the parser gives them a range without end)
 			"cut1.tf": "variable \"cut\" {\n  type =list(\n",
 			"cut2.tf": "locals {\n  cut =upper(\n  next = 1\n",
+			// an index step without closing bracket (recovered by the parser up to the start of a later line)
+			"cut3.tf": "output \"cut\" {\n  value = [\"z\", var.extra[1%{]\n}\n",
 		},
 	}
 }
